@@ -1,2 +1,345 @@
-def generate():
+"""C18 translator back end: regenerates coq/Gen/Gen_C18_bits.v from the CURRENT /repo/src/phreeqcpp/inverse.cpp.
+
+It transliterates (clang JSON AST, no interpretation of meaning):
+  * superset_minimal / subset_bad / subset_minimal : the scanned vector, the loop bound, the test
+    `lhs == rhs` of the loop body (local temporaries inlined), the two return values  -> Bits.looptest
+  * set_bit : the value returned in the `value == 0` branch and in the other branch    -> Bits.bexpr
+  * minimal_solve : the expression that removes bit i from minimal_bits and the two "put bit back"
+    expressions                                                                        -> Bits.bexpr
+In the emitted terms BA is the word argument (`bits`, resp. minimal_bits at the top of the loop body) and
+BB is the array element (loop functions) resp. the one-bit word `1 << position` (bit updates).
+What the expressions MEAN is decided in Coq (C18/Bits.v: truth-table classifier, proved sound).
+Anything outside this small subset raises Refuse -> the check records a broken tie.
+"""
+import json, os, subprocess, sys, concurrent.futures as cf
+
+sys.path.insert(0, os.path.join(os.path.dirname(os.path.dirname(os.path.abspath(__file__))), "lib"))
+import vlib
+
+
+class Refuse(Exception):
     pass
+
+
+def clang_ast(filt):
+    src = os.path.join(vlib.REPO, "src", "phreeqcpp", "inverse.cpp")
+    cmd = ["clang++", "-std=c++11", "-fsyntax-only", "-Xclang", "-ast-dump=json", "-Xclang", "-ast-dump-filter=" + filt,
+           "-DSWIG_SHARED_OBJ", "-DUSE_PHRQ_ALLOC"] + vlib.inc_flags() + [src]
+    rc, out, err = vlib.sh(cmd, timeout=300)
+    if not out.strip():
+        raise Refuse("clang produced no AST for %s: %s" % (filt, err[-500:]))
+    dec = json.JSONDecoder()
+    i = 0
+    docs = []
+    while i < len(out):
+        while i < len(out) and out[i].isspace():
+            i += 1
+        if i >= len(out):
+            break
+        o, j = dec.raw_decode(out, i)
+        docs.append(o)
+        i = j
+    return docs
+
+
+def method_body(docs, name):
+    for d in docs:
+        if d.get("kind") == "CXXMethodDecl" and d.get("name") == name:
+            for c in d.get("inner", []):
+                if c.get("kind") == "CompoundStmt":
+                    params = [p["name"] for p in d.get("inner", []) if p.get("kind") == "ParmVarDecl"]
+                    return params, c
+    raise Refuse("definition of Phreeqc::%s not found" % name)
+
+
+def strip(n):
+    while n.get("kind") in ("ImplicitCastExpr", "ParenExpr", "CStyleCastExpr", "CXXStaticCastExpr", "CXXFunctionalCastExpr", "ExprWithCleanups"):
+        n = n["inner"][0]
+    return n
+
+
+def refname(n):
+    n = strip(n)
+    if n.get("kind") == "DeclRefExpr":
+        return n["referencedDecl"]["name"]
+    if n.get("kind") == "MemberExpr":
+        return n.get("name")
+    return None
+
+
+class Sym:
+    """symbolic evaluator for the bit expressions of one function"""
+
+    def __init__(self, word, elem_arrays=(), onebit_of=None):
+        self.word = word              # name bound to BA
+        self.arrays = set()           # vectors indexed (-> BB)
+        self.elem_arrays = elem_arrays
+        self.onebit_of = onebit_of    # if set: `1 << <this var>` is BB
+        self.env = {}
+
+    def expr(self, n):
+        n = strip(n)
+        k = n.get("kind")
+        if k == "DeclRefExpr":
+            nm = n["referencedDecl"]["name"]
+            if nm in self.env:
+                return self.env[nm]
+            if nm == self.word:
+                return "BA"
+            raise Refuse("unexpected variable %s in a bit expression" % nm)
+        if k in ("CXXOperatorCallExpr", "ArraySubscriptExpr"):
+            inner = n["inner"]
+            if k == "CXXOperatorCallExpr":
+                if refname(inner[0]) != "operator[]":
+                    raise Refuse("unexpected operator call")
+                base, idx = inner[1], inner[2]
+            else:
+                base, idx = inner[0], inner[1]
+            b = refname(base)
+            if b is None:
+                raise Refuse("unexpected array base")
+            self.arrays.add(b)
+            self.index = refname(idx)
+            return "BB"
+        if k == "BinaryOperator":
+            op = n["opcode"]
+            a, b = n["inner"]
+            if op == "<<":
+                sa = strip(a)
+                if sa.get("kind") == "IntegerLiteral" and sa.get("value") == "1" and self.onebit_of is not None and refname(b) == self.onebit_of:
+                    return "BB"
+                raise Refuse("unexpected shift")
+            if op in ("|", "&", "^"):
+                return "(%s %s %s)" % ({"|": "BOr", "&": "BAnd", "^": "BXor"}[op], self.expr(a), self.expr(b))
+            raise Refuse("unexpected binary operator %s" % op)
+        if k == "UnaryOperator" and n.get("opcode") == "~":
+            return "(BNot %s)" % self.expr(n["inner"][0])
+        if k == "IntegerLiteral" and n.get("value") == "0":
+            return "BZero"
+        raise Refuse("unexpected expression kind %s" % k)
+
+    def assign(self, n):
+        """n: BinaryOperator '=' with a local or the word on the left"""
+        lhs, rhs = n["inner"]
+        nm = refname(lhs)
+        if nm is None:
+            raise Refuse("unexpected assignment target")
+        v = self.expr(rhs)
+        self.env[nm] = v
+        return nm
+
+
+def int_lit(n):
+    n = strip(n)
+    if n.get("kind") == "IntegerLiteral":
+        return int(n["value"])
+    if n.get("kind") == "UnaryOperator" and n.get("opcode") == "-":
+        return -int_lit(n["inner"][0])
+    raise Refuse("integer literal expected")
+
+
+def stmts(comp):
+    if comp.get("kind") == "CompoundStmt":
+        return [s for s in comp.get("inner", [])]
+    return [comp]
+
+
+def translate_loop(docs, name):
+    params, body = method_body(docs, name)
+    if len(params) != 1:
+        raise Refuse("%s: one parameter expected" % name)
+    sym = Sym(params[0])
+    loop = None
+    notfound = None
+    for s in stmts(body):
+        k = s.get("kind")
+        if k == "DeclStmt":
+            continue
+        if k == "ForStmt":
+            if loop is not None:
+                raise Refuse("%s: more than one loop" % name)
+            loop = s
+        elif k == "ReturnStmt":
+            notfound = int_lit(s["inner"][0])
+        else:
+            raise Refuse("%s: unexpected statement %s" % (name, k))
+    if loop is None or notfound is None:
+        raise Refuse("%s: loop / final return not found" % name)
+    init, _cv, cond, inc, lbody = loop["inner"]
+    # for (i = 0; i < count; i++)
+    if not (init.get("kind") == "BinaryOperator" and init.get("opcode") == "=" and int_lit(init["inner"][1]) == 0):
+        raise Refuse("%s: loop does not start at 0" % name)
+    ivar = refname(init["inner"][0])
+    c = strip(cond)
+    if not (c.get("kind") == "BinaryOperator" and c.get("opcode") == "<" and refname(c["inner"][0]) == ivar):
+        raise Refuse("%s: loop condition is not i < count" % name)
+    count = refname(c["inner"][1])
+    if not (inc.get("kind") == "UnaryOperator" and inc.get("opcode") in ("++",) and refname(inc["inner"][0]) == ivar):
+        raise Refuse("%s: loop increment is not i++" % name)
+    test = None
+    found = None
+    for s in stmts(lbody):
+        k = s.get("kind")
+        if k == "BinaryOperator" and s.get("opcode") == "=":
+            sym.assign(s)
+        elif k == "IfStmt":
+            if test is not None:
+                raise Refuse("%s: more than one test in the loop" % name)
+            cnd = strip(s["inner"][0])
+            if not (cnd.get("kind") == "BinaryOperator" and cnd.get("opcode") == "=="):
+                raise Refuse("%s: loop test is not an equality" % name)
+            test = (sym.expr(cnd["inner"][0]), sym.expr(cnd["inner"][1]))
+            th = stmts(s["inner"][1])
+            if len(th) != 1 or th[0].get("kind") != "ReturnStmt" or len(s["inner"]) > 2:
+                raise Refuse("%s: the test does not guard a single return" % name)
+            found = int_lit(th[0]["inner"][0])
+        elif k in ("NullStmt", "DeclStmt"):
+            continue
+        else:
+            raise Refuse("%s: unexpected statement %s in the loop" % (name, k))
+    if test is None:
+        raise Refuse("%s: no test in the loop" % name)
+    if len(sym.arrays) != 1 or getattr(sym, "index", None) != ivar:
+        raise Refuse("%s: the loop does not index exactly one vector with its counter" % name)
+    return ('{| lt_array := "%s"; lt_count := "%s"; lt_test := (%s, %s); lt_found := %d; lt_notfound := %d |}'
+            % (list(sym.arrays)[0], count, test[0], test[1], found, notfound))
+
+
+def translate_set_bit(docs):
+    params, body = method_body(docs, "set_bit")
+    if len(params) != 3:
+        raise Refuse("set_bit: three parameters expected")
+    word, pos, val = params
+    sym = Sym(word, onebit_of=pos)
+    out = {}
+    ret_var = None
+    for s in stmts(body):
+        k = s.get("kind")
+        if k == "DeclStmt":
+            for v in s.get("inner", []):
+                if v.get("kind") == "VarDecl" and v.get("inner"):
+                    sym.env[v["name"]] = sym.expr(v["inner"][0])
+            continue
+        if k == "BinaryOperator" and s.get("opcode") == "=":
+            sym.assign(s)
+        elif k == "IfStmt":
+            cnd = strip(s["inner"][0])
+            if not (cnd.get("kind") == "BinaryOperator" and cnd.get("opcode") == "==" and refname(cnd["inner"][0]) == val and int_lit(cnd["inner"][1]) == 0):
+                raise Refuse("set_bit: condition is not `value == 0`")
+            if len(s["inner"]) != 3:
+                raise Refuse("set_bit: if without else")
+            envs = []
+            for br in (s["inner"][1], s["inner"][2]):
+                sub = Sym(word, onebit_of=pos)
+                sub.env = dict(sym.env)
+                for t in stmts(br):
+                    if t.get("kind") == "BinaryOperator" and t.get("opcode") == "=":
+                        sub.assign(t)
+                    else:
+                        raise Refuse("set_bit: unexpected statement in a branch")
+                envs.append(sub.env)
+            out["envs"] = envs
+        elif k == "ReturnStmt":
+            ret_var = refname(s["inner"][0])
+        else:
+            raise Refuse("set_bit: unexpected statement %s" % k)
+    if "envs" not in out or ret_var is None:
+        raise Refuse("set_bit: shape not recognised")
+    return out["envs"][0].get(ret_var), out["envs"][1].get(ret_var)
+
+
+def find_for_over_bits(body):
+    for s in stmts(body):
+        if s.get("kind") == "ForStmt":
+            return s
+    raise Refuse("minimal_solve: loop not found")
+
+
+def translate_minimal_solve(docs):
+    params, body = method_body(docs, "minimal_solve")
+    word = params[1] if len(params) == 2 else None
+    if word is None:
+        raise Refuse("minimal_solve: two parameters expected")
+    loop = find_for_over_bits(body)
+    init, _cv, cond, inc, lbody = loop["inner"]
+    # loop variable
+    if init.get("kind") == "DeclStmt":
+        ivar = init["inner"][0]["name"]
+    else:
+        ivar = refname(init["inner"][0])
+    sym = Sym(word, onebit_of=ivar)
+    clear = None
+    putbacks = []
+    calls = []
+
+    def called(n):
+        n = strip(n)
+        if n.get("kind") == "CXXMemberCallExpr":
+            return strip(n["inner"][0]).get("name")
+        if n.get("kind") == "BinaryOperator":
+            for c in n["inner"]:
+                r = called(c)
+                if r:
+                    return r
+        return None
+
+    for s in stmts(lbody):
+        k = s.get("kind")
+        if k == "BinaryOperator" and s.get("opcode") == "=":
+            nm = sym.assign(s)
+            if nm == word and clear is None:
+                clear = sym.env[word]
+        elif k == "IfStmt":
+            fn = called(s["inner"][0])
+            if fn in ("subset_bad", "solve_with_mask"):
+                sub = Sym(word, onebit_of=ivar)
+                sub.env = dict(sym.env)
+                for t in stmts(s["inner"][1]):
+                    if t.get("kind") == "BinaryOperator" and t.get("opcode") == "=":
+                        sub.assign(t)
+                if word not in sub.env or sub.env[word] == sym.env.get(word):
+                    raise Refuse("minimal_solve: the %s branch does not restore the bit" % fn)
+                putbacks.append((fn, sub.env[word]))
+                calls.append(fn)
+            # other ifs (get_bits test with continue, debug prints) carry no bit update
+        elif k in ("DeclStmt", "NullStmt", "ContinueStmt"):
+            continue
+    if clear is None or [f for f, _ in putbacks] != ["subset_bad", "solve_with_mask"]:
+        raise Refuse("minimal_solve: clear / put-back expressions not found (%r)" % (calls,))
+    return clear, putbacks[0][1], putbacks[1][1]
+
+
+def generate():
+    with cf.ThreadPoolExecutor(max_workers=4) as ex:
+        fut = {f: ex.submit(clang_ast, f) for f in ("superset_minimal", "subset_", "set_bit", "minimal_solve")}
+        docs = {f: fu.result() for f, fu in fut.items()}
+    sup = translate_loop(docs["superset_minimal"], "superset_minimal")
+    sbad = translate_loop(docs["subset_"], "subset_bad")
+    smin = translate_loop(docs["subset_"], "subset_minimal")
+    sb0, sb1 = translate_set_bit(docs["set_bit"])
+    clr, pb1, pb2 = translate_minimal_solve(docs["minimal_solve"])
+    text = """(* GENERATED by translator/c18_bits.py from %s — do not edit *)
+From Coq Require Import ZArith String List.
+From IPV Require Import C18.Bits.
+Open Scope string_scope.
+Open Scope Z_scope.
+
+Definition gen_superset_minimal : looptest := %s.
+Definition gen_subset_bad : looptest := %s.
+Definition gen_subset_minimal : looptest := %s.
+
+(* set_bit(bits, position, value): BA = bits, BB = 1 << position *)
+Definition gen_set_bit_value0 : bexpr := %s.
+Definition gen_set_bit_value1 : bexpr := %s.
+
+(* minimal_solve loop body: BA = minimal_bits at the top of the body, BB = 1 << i *)
+Definition gen_ms_clear : bexpr := %s.
+Definition gen_ms_putback_subset_bad : bexpr := %s.
+Definition gen_ms_putback_infeasible : bexpr := %s.
+""" % ("src/phreeqcpp/inverse.cpp", sup, sbad, smin, sb0, sb1, clr, pb1, pb2)
+    vlib.write_if_changed(os.path.join(vlib.COQ, "Gen", "Gen_C18_bits.v"), text)
+    return text
+
+
+if __name__ == "__main__":
+    print(generate())
